@@ -349,7 +349,10 @@ OnRet(m00, e) ==
                   porig \o " was refused with a 'while tracing' panic although no Trace::trace call is running")
       mIt == Flag(mIt0, tracingBad /\ porig \in {"upgrade", "upgradef"}, "C08",
                   "Weak::upgrade panicked ('while tracing') instead of returning None, outside any Trace::trace call")
-      mI0 == Flag(mIt, e.panic = "max" /\ ~okMax, "C16", op \o " panicked with a saturation error below the supported maximum")
+      \* a panic that neither the harness injected nor the documentation announces came out of the library itself
+      ownPanic == lim = 0 /\ ~fr.fault /\ Len(e.panic) > 6 /\ SubSeq(e.panic, 1, 6) = "other:"
+      mIu == Flag(mIt, ownPanic, "C07", "the library panicked by itself in " \o op \o " (" \o e.panic \o ")")
+      mI0 == Flag(mIu, e.panic = "max" /\ ~okMax, "C16", op \o " panicked with a saturation error below the supported maximum")
       mI1 == Flag(mI0, ~pan /\ ((op \in StrongMakers \ {"clonen"} /\ atMaxS /\ ~(op \in {"upgrade", "upgradef"} /\ res = "none")) \/ (op \in WeakMakers \ {"clonewn"} /\ atMaxW)), "C16",
                   op \o " succeeded beyond the supported maximum number of pointers")
       unexpl == pan /\ ~fr.fault /\ e.panic \notin {"max", "unwind"} /\ ~(e.panic = "fagain" /\ op = "fagain")
